@@ -723,34 +723,16 @@ func findIIFEs(pkgs map[string]*packages.Package) []iifeSite {
 			continue
 		}
 		for _, f := range pk.Syntax {
+			tailStmts := map[ast.Stmt]bool{}
 			visit := func(list []ast.Stmt, top bool) {
+				_ = top
 				for i, st := range list {
 					if ls, ok := st.(*ast.LabeledStmt); ok {
 						st = ls.Stmt
 					}
 					// in tail position of its function: nothing follows but one return of plain names or constants
-					tail := top
-					if tail {
-						rest := list[i+1:]
-						switch len(rest) {
-						case 0:
-						case 1:
-							r, ok := rest[0].(*ast.ReturnStmt)
-							if !ok {
-								tail = false
-								break
-							}
-							for _, e := range r.Results {
-								switch ast.Unparen(e).(type) {
-								case *ast.Ident, *ast.BasicLit:
-								default:
-									tail = false
-								}
-							}
-						default:
-							tail = false
-						}
-					}
+					// (directly, or through the blocks and `L: switch { default: … }` wrappers earlier flattening left)
+					tail := tailStmts[list[i]]
 					n0 := len(out)
 					switch s := st.(type) {
 					case *ast.AssignStmt:
@@ -810,6 +792,7 @@ func findIIFEs(pkgs map[string]*packages.Package) []iifeSite {
 				case *ast.FuncDecl:
 					if x.Body != nil {
 						topBodies[x.Body] = true
+						markTail(x.Body.List, true, tailStmts)
 					}
 				case *ast.BlockStmt:
 					visit(x.List, topBodies[x])
@@ -823,6 +806,71 @@ func findIIFEs(pkgs map[string]*packages.Package) []iifeSite {
 		}
 	}
 	return out
+}
+
+// markTail records the statements after which nothing happens in the function but the return of plain names: the
+// last statement of the body, the one in front of such a return, and — through blocks and the `L: switch { default: }`
+// wrappers that flattening leaves behind, where only `break L` and `_ = x` may follow — the same inside them.
+func markTail(list []ast.Stmt, top bool, set map[ast.Stmt]bool) {
+	trivial := func(rest []ast.Stmt) bool {
+		for k, st := range rest {
+			switch x := st.(type) {
+			case *ast.EmptyStmt:
+			case *ast.BranchStmt:
+				if x.Tok != token.BREAK || x.Label == nil {
+					return false
+				}
+			case *ast.AssignStmt:
+				// `_ = x`, `a, b = r1, r2`: moves between plain names
+				if len(x.Lhs) != len(x.Rhs) || x.Tok != token.ASSIGN {
+					return false
+				}
+				for j := range x.Lhs {
+					if _, ok := x.Lhs[j].(*ast.Ident); !ok {
+						return false
+					}
+					if _, ok := x.Rhs[j].(*ast.Ident); !ok {
+						return false
+					}
+				}
+			case *ast.ReturnStmt:
+				if !top || k != len(rest)-1 {
+					return false
+				}
+				for _, e := range x.Results {
+					switch ast.Unparen(e).(type) {
+					case *ast.Ident, *ast.BasicLit:
+					default:
+						return false
+					}
+				}
+			default:
+				return false
+			}
+		}
+		return true
+	}
+	for i, st := range list {
+		if !trivial(list[i+1:]) {
+			continue
+		}
+		set[st] = true
+		inner := st
+		if ls, ok := st.(*ast.LabeledStmt); ok {
+			inner = ls.Stmt
+			set[inner] = true
+		}
+		switch x := inner.(type) {
+		case *ast.BlockStmt:
+			markTail(x.List, false, set)
+		case *ast.SwitchStmt:
+			if x.Init == nil && x.Tag == nil && len(x.Body.List) == 1 {
+				if cc, ok := x.Body.List[0].(*ast.CaseClause); ok && cc.List == nil {
+					markTail(cc.Body, false, set)
+				}
+			}
+		}
+	}
 }
 
 // bindSpawnArgs turns `go func(p T){B}(a)` into `{ var p T = a; go func(){B}() }` (the arguments of a go or defer
